@@ -27,7 +27,7 @@ def strategy(tier):
     from hypothesis import strategies as st
     general = graph.graph_case(max_tasks=8 if tier == "quick" else 12, outcomes="some", max_bad=4,
                             p_seed_den=5, tape_max=50, tape_hi=31, flags=("again", "stop_early"),
-                            jobs=(None, 1, 2, 2, 3, 3, 4, 5))
+                            jobs=(None, 1, 2, 2, 3, 3, 4, 5), rmout=True)
     # experiment-heavy graphs in which every second experiment is cached: chains of pruned tasks with shortcut edges
     cached = graph.graph_case(max_tasks=8 if tier == "quick" else 12, outcomes="some", max_bad=3, kind_weights=(2, 6, 1, 0),
                               p_seed_den=2, tape_max=50, tape_hi=31, densities=("dense", "sparse"), flags=("stop_early",),
@@ -44,7 +44,7 @@ def examples(tier):
 def run_case(case):
     if case.get("layer") == "real":
         return check(case, reallayer.run_real(case))
-    return check(case, graph.run_graph_case(case))
+    return graph.judge_ambiguous(case, graph.run_graph_case(case), check)
 
 
 def literal_fixed_point(case, need, bad):
@@ -81,7 +81,7 @@ def check(case, res):
     started, succeeded, failed, skipped = m_lit
     for x in failed:
         o = case["outcomes"][str(x)]
-        labels.append("fail_exit" if "exit" in o else "fail_signal" if "signal" in o else "fail_combine_conflict" if "conflict" in o else "fail_launch_" + o["launch"])
+        labels.append("fail_exit" if "exit" in o else "fail_signal" if "signal" in o else "fail_combine_conflict" if "conflict" in o else "fail_rmout" if "rmout" in o else "fail_launch_" + o["launch"])
         deps_of = [y for y in need if x in model._reach_strict(case, y)]
         indep = [y for y in need if y != x and x not in model._reach_strict(case, y) and y not in model._reach_strict(case, x)]
         if deps_of and indep:
@@ -130,7 +130,7 @@ def check(case, res):
         for t, msg in rep["failed"]:
             x = obs.idx_of.get(t)
             o = case.get("outcomes", {}).get(str(x))
-            if o and "launch" not in o and "conflict" not in o and "(%d)" % graph.expected_code(o) not in msg:
+            if o and "launch" not in o and "conflict" not in o and "rmout" not in o and "(%d)" % graph.expected_code(o) not in msg:
                 v.append(("wrong_code", "%s reported %r, its process ended with %d" % (t, msg, graph.expected_code(o))))
         want_status = 1 if failed else 0
         if res["status"] != want_status:
